@@ -29,7 +29,7 @@ type fakeDB struct {
 	mtx       sync.Mutex
 	log       []recorded
 	canned    func(q string) (cols []string, rows [][]driver.Value)
-	showTable []string // answer for SHOW TABLES
+	showTable []string         // answer for SHOW TABLES
 	settings  [][]driver.Value // answer (rows of _name,_value) for the dbVersion settings query
 }
 
@@ -152,9 +152,9 @@ type fakeRegistry struct {
 }
 
 func (r *fakeRegistry) GetDB(ctx context.Context) (*model.DataDatabasesMap, error) { return r.m, nil }
-func (r *fakeRegistry) Run()                                                         {}
-func (r *fakeRegistry) Stop()                                                        {}
-func (r *fakeRegistry) Ping() error                                                  { return nil }
+func (r *fakeRegistry) Run()                                                       {}
+func (r *fakeRegistry) Stop()                                                      {}
+func (r *fakeRegistry) Ping() error                                                { return nil }
 
 func newRegistry(f *fakeDB, cluster string) *fakeRegistry {
 	return &fakeRegistry{m: &model.DataDatabasesMap{
